@@ -25,6 +25,7 @@ def main(tier, replay=None):
         dict(name="bounce-with-crash", opts=[M, "msgs=l2", "signals=0", "verdicts=KD", "reorder=1"], bounds="0,0,1,%d" % (2 if q else 3), total=3 if q else 4, deadline=2400),
     ]
     fams.append(dict(name="bounce-with-one-failing-call", opts=[M, "msgs=l1r1", "signals=0", "verdicts=KD", "reorder=1"], bounds="0,1,0,%d" % (2 if q else 3), total=3 if q else 4, deadline=2400))
+    fams.append(dict(name="signal-while-waiting-for-the-bounce-injection", opts=[M, "msgs=l1r1", "signals=0", "verdicts=KD", "reorder=1", "sigwait=1"], bounds="0,0,0,%d" % (2 if q else 3), total=3, deadline=2400))
     fams.append(dict(name="configured-bounce-addresses", opts=[M, "msgs=l1r1+verp", "signals=0", "verdicts=KD", "reorder=2", "bouncectl=1"], bounds="0,0,0,%d" % (3 if q else 4), total=4, deadline=2400))
     run_families(res, "C14", tier, fams)
     res.rule = ("text: every failure text over {a,LF,<,>,:} up to the bound x a recipient pool (newlines, virtual prefixes, near misses) through the real "
@@ -34,6 +35,6 @@ def main(tier, replay=None):
                 "queue is empty with its own delivery failing too; with a single failing call of qmail-send or qmail-clean anywhere; with default and with configured bouncefrom/bouncehost/doublebounceto/doublebouncehost; every notice queued by the daemon is parsed: From/To header, envelope, one paragraph per "
                 "failed recipient and no other, original appended, no notice for a #@[] sender")
     res.assumptions = ["virtual kernel (appendix A)", "failed recipients' addresses are pairwise distinct, which identifies the original of a notice"]
-    res.require_nonzero("evaluations", "blank_lines_neutralised", "virtual_prefix_stripped", "single_bounces_checked", "double_bounces_checked", "expired_deferrals", "machine_crashes")
+    res.require_nonzero("evaluations", "blank_lines_neutralised", "virtual_prefix_stripped", "single_bounces_checked", "double_bounces_checked", "expired_deferrals", "machine_crashes", "signals_during_wait")
     lib_conformance(res, rd, srca, ['bytes', 'io', 'date'], tier, asan=True)
     return res.finish()
